@@ -393,6 +393,90 @@ class EntryPoints(Part):
         return res
 
 
+OPT_MENU = {
+    "preserve_prefixes": [None, [], ["10.0.0.0/8"]],
+    "preserve_networks": [None, [], ["11.11.0.0/16"]],
+    "preserve_suffix_v4": [None, 0, 8],
+    "preserve_suffix_v6": [None, 0, 16],
+    "as_numbers": [None, [], ["65001"]],
+    "sensitive_words": [None, [], ["seattle"]],
+    "reserved_words": [None, [], ["KeepMe"]],
+    "salt": ["saltForTest", "", "0"],
+    "anon_pwd": [True, False],
+    "undo_ip_anon": [False, True],
+}
+OPT_TEXT = ("hostname seattle-core KeepMe\n ip address 10.1.2.3 255.255.255.0\n ip address 11.11.62.24 255.255.0.0\n"
+            " ipv6 address 2001:db8::1:5/64\nrouter bgp 65001\npassword s3cretA\n neighbor 138.7.6.5 remote-as 65001\n")
+
+
+class OptionValues(Part):
+    name = "option_values_across_entry_points"
+    desc = "every option at each of its values (None, empty, a value), at most two non-default at once: anonymize_files (directory and single file), anonymize_file and anonymize_io give identical bytes"
+
+    def __init__(self, tier, seed):
+        self.tier, self.seed = tier, seed
+
+    def cases(self):
+        names = sorted(OPT_MENU)
+        out = [{"dev": {}}]
+        for n in names:
+            for v in range(1, len(OPT_MENU[n])):
+                out.append({"dev": {n: v}})
+        for a, b in itertools.combinations(names, 2):
+            for va in range(1, len(OPT_MENU[a])):
+                for vb in range(1, len(OPT_MENU[b])):
+                    out.append({"dev": {a: va, b: vb}})
+        return out
+
+    def run(self, case):
+        from netconan.anonymize_files import FileAnonymizer, anonymize_files
+
+        res = Res()
+        kw = {n: OPT_MENU[n][case["dev"].get(n, 0)] for n in OPT_MENU}
+        kw = {n: (list(v) if isinstance(v, list) else v) for n, v in kw.items()}
+        kw["anon_ip"] = not kw["undo_ip_anon"]
+
+        def fresh_kw():
+            return {n: (list(v) if isinstance(v, list) else v) for n, v in kw.items()}
+
+        root = seams.scratch_dir("c16o")
+        outs = {}
+        try:
+            seams.write_tree(os.path.join(root, "in"), {"a.cfg": OPT_TEXT})
+            src = os.path.join(root, "in", "a.cfg")
+            with seams.capture_logs(), seams.capture_stdio():
+                try:
+                    anonymize_files(os.path.join(root, "in"), os.path.join(root, "o1"), **fresh_kw())
+                    outs["anonymize_files(directory)"] = seams.read_tree(os.path.join(root, "o1")).get("a.cfg")
+                    anonymize_files(src, os.path.join(root, "o2.cfg"), **fresh_kw())
+                    with open(os.path.join(root, "o2.cfg"), "rb") as fh:
+                        outs["anonymize_files(single file)"] = fh.read()
+                    FileAnonymizer(**fresh_kw()).anonymize_file(src, os.path.join(root, "o3.cfg"))
+                    with open(os.path.join(root, "o3.cfg"), "rb") as fh:
+                        outs["anonymize_file"] = fh.read()
+                    buf = io.StringIO()
+                    FileAnonymizer(**fresh_kw()).anonymize_io(io.StringIO(OPT_TEXT, newline=""), buf)
+                    outs["anonymize_io"] = buf.getvalue().encode()
+                except Exception as e:
+                    res.violation("entry-point-raised:%s|%s" % (type(e).__name__, ",".join(sorted(case["dev"])) or "defaults"),
+                                  "options %r: %r after %r" % (kw, e, sorted(outs)), case)
+                    return res
+        finally:
+            shutil.rmtree(root, ignore_errors=True)
+            seams.restore_globals()
+        res.evals += 1
+        res.nt(tuple(sorted(case["dev"].items())))
+        ref = outs["anonymize_io"]
+        res.out(ref)
+        for name, data in outs.items():
+            if data != ref:
+                res.violation("entry-points-differ|%s|%s" % (name.split("(")[0], ",".join(sorted(case["dev"])) or "defaults"),
+                              "options %r: %s gives %r, anonymize_io gives %r" % (
+                                  {n: kw[n] for n in case["dev"]}, name, (data or b"")[:160], ref[:160]), case)
+                break
+        return res
+
+
 class SingleFile(Part):
     name = "single_file_input"
     desc = "single input file: named output file only; output occupied by a directory is reported"
@@ -555,4 +639,4 @@ def json_key(d):
 
 
 def parts(tier, seed):
-    return [TreesPart(tier, seed), EntryPoints(tier, seed), SingleFile(tier, seed), RepeatedRuns(tier, seed)]
+    return [TreesPart(tier, seed), EntryPoints(tier, seed), SingleFile(tier, seed), RepeatedRuns(tier, seed), OptionValues(tier, seed)]
